@@ -262,7 +262,7 @@ static void v_init(int argc, char **argv) {
     /* deterministic process image: disable ASLR by re-exec (once) */
     if (!getenv("V_NOASLR")) {
         setenv("V_NOASLR", "1", 1);
-        setenv("TZ", "UTC", 1);
+        setenv("TZ", getenv("V_TZ") ? getenv("V_TZ") : "UTC", 1); /* V_TZ: a harness entry may ask for another (POSIX-string) zone */
         setenv("LC_ALL", "C", 1);
         int pers = personality(0xffffffff);
         if (pers != -1 && !(pers & ADDR_NO_RANDOMIZE) && personality(pers | ADDR_NO_RANDOMIZE) != -1) {
